@@ -24,7 +24,7 @@ _PROVED = {
  "C08": "Proved (Props/C08.v, 21 theorems, for arbitrary filesystems and every world incl. faults/crash points): taking a backup never invokes a mutating base method; if the backup of any mutating operation fails the operation returns that failure in exactly the world the failed backup left (fail-stop), Rename for each of its two backups, RemoveAll per entry. Props/C08_faults.v (over the laws + fault laws, closed for the three layerings): under every single-fault plan every covered operation keeps the transaction invariant, and a fault on the backup filesystem during a backup-taking operation yields an error with the base view unchanged; afterwards Rollback restores (C09_faults). Multi-fault plans: enumeration (two faults can break the clean-up of a partial copy: the boundary the proof identified). ",
  "C13": "Proved (Props/C13.v, arbitrary filesystems): every call Rollback makes on either filesystem is on a path tracked when it started (guard_api), on the backup only Lstat/Open/Readlink/Remove. What base.RemoveAll/MkdirAll do inside the method is covered by the oracle (foreign entries survive). ",
  "C16": "Proved (Props/C16.v, 37 theorems, concrete model of resolvePathWithInfo over the modelled kernel walk): termination and read-onlyness for every world and name; no fuel exhaustion for any topology within a size bound; under the exclusion of the recorded deviations (D17, K2 - boolean triggers): no symlink among the parents of the result, same entry as the caller's name under the kernel walk (unless the kernel answers ELOOP = recorded finding K8), final component unresolved, missing tail lexical. Relative names (working directory = root) proved as well (C16_relative_*). ",
- "C17": "Proved (Props/C17.v, over the laws): ForceBackup of a resolved non-directory path re-establishes the invariant for the baseline rebased at p, whether it succeeds or fails; after any covered history Rollback returns nil, p is as at the ForceBackup moment, every other path as originally (C17_rollback_after_force_backup). The two side conditions the proof forced were real defects, D21 and D22, both repaired in the code; the side conditions entry_ok, orig_not_dir_cond and parents_original remain hypotheses of every C17 theorem, the concrete instances included (the laws say nothing about creating below a missing directory). ",
+ "C17": "Proved (Props/C17.v, over the laws): ForceBackup of a resolved non-directory path re-establishes the invariant for the baseline rebased at p, whether it succeeds or fails; after any covered history Rollback returns nil, p is as at the ForceBackup moment, every other path as originally (C17_rollback_after_force_backup). A path that WAS a directory when the transaction began (now absent or a non-directory): Props/C17.v C17_former_directory_*: ForceBackup re-establishes the invariant for the baseline pruned at p; after Rollback p is as at the ForceBackup moment, its former content is not restored, everything outside is as originally. Closed for the three layerings. The two side conditions the proof forced were real defects, D21 and D22, both repaired in the code; the side conditions entry_ok, orig_not_dir_cond and parents_original remain hypotheses of every C17 theorem, the concrete instances included (the laws say nothing about creating below a missing directory). ",
  "C02": "Proved (Props/C02.v): between operations of any covered history every original is intact in the base view or copied at the same backup path and the backup holds nothing else (C02_between_operations_partial); tryBackup never changes the base view. AT EVERY INSTANT (Props/C02_instant.v): with the model's own crash points (the state at instant k = the world in which a run with crash point k halts), every instant of tryBackup, of every covered operation, of every covered history and of Rollback is recoverable: originals intact or exactly copied, the backup holds nothing but copies with at most the one entry being written incomplete; closed for the three layerings (C02_instant_concrete/_documented/_new and the _rollback_ variants). Fault plans and operations outside 'covered' are decided by enumeration. ",
 }
 _P0 = _PROVED
